@@ -90,6 +90,13 @@
 //!   faults on a 7-zone sub-universe), L/SOA, L/D (TTL edit alphabet, edit
 //!   sequences <= 2 [3 on the sub-universe], SOA plans), L/S (real sender
 //!   edited with the write interface, 12 request kinds), L/W, L/H.
+//!   Edit shapes: a second universe holds the A RRset of a.z in the shapes
+//!   {A{1}, A{1,2}, A{3}, A{1,3}} x 3 [4] TTLs, so that every record edit of
+//!   one RRset (keep+add, keep+remove, keep+add+remove, replace all, none)
+//!   meets every TTL move (same, raised, lowered); all its ordered pairs run
+//!   through L/R (every stream form), L/S (sender edited with the write
+//!   interface, its commit diff served as IXFR, AXFR; 12 request kinds), L/W
+//!   and, as old contents and edit operations, L/D.
 //!   `C10_ONLY_L=1` runs part L only (development aid).
 //! Serial axis: model serials are logical (1, 2, 3 = versions of a history);
 //!   a scheme (start, step) maps them to SOA serials.  Scheme 0 is 1,2,3; seven
@@ -239,7 +246,8 @@ fn plan_from_json(v: &Value) -> [u8; 3] {
     p
 }
 
-/// kinds: 0 none, 1 A{1}, 2 A{1,2}, 3 TXT{1}, 4 A{3} (kind 4 only in part D).
+/// kinds: 0 none, 1 A{1}, 2 A{1,2}, 3 TXT{1}, 4 A{3} (only in part D and in
+/// the edit-shape universe of part L), 5 A{1,3} (only in part L).
 /// A zone description holds per name `kind | ttl_index << 3` (see `kt`): the
 /// 64-zone universe has TTL index 0 everywhere, part L the others as well.
 fn kind_rds(kind: u8) -> Vec<RD> {
@@ -249,6 +257,7 @@ fn kind_rds(kind: u8) -> Vec<RD> {
         2 => vec![RD::A(1), RD::A(2)],
         3 => vec![RD::Txt(1)],
         4 => vec![RD::A(3)],
+        5 => vec![RD::A(1), RD::A(3)],
         _ => unreachable!(),
     }
 }
@@ -294,7 +303,8 @@ fn universe() -> Vec<Kinds> {
         1 => ttl_universe(false),
         2 => ttl_universe(true),
         3 => ttl_small_universe(),
-        _ => soa_axis_zones(),
+        4 => soa_axis_zones(),
+        _ => ttl_shape_universe(UNIVERSE.with(|u| u.get()) == 6),
     }
 }
 
@@ -339,6 +349,40 @@ fn ttl_small_universe() -> Vec<Kinds> {
         }
     }
     v
+}
+
+/// Part L, edit shapes: a.z holds an A RRset of one of the shapes {A{1},
+/// A{1,2}, A{3}, A{1,3}} under each TTL of a menu (3 TTLs, `wide`: all 4).
+/// Between two zones of this universe the RRset keeps and gains records,
+/// keeps and loses, keeps, gains and loses, replaces all its records, or
+/// keeps them all - each with the TTL unchanged, raised and lowered.
+fn ttl_shape_universe(wide: bool) -> Vec<Kinds> {
+    let ttls: &[u8] = if wide { &[0, 1, 2, 3] } else { &[0, 1, 3] };
+    let mut v = vec![];
+    for k in [1u8, 2, 4, 5] {
+        for t in ttls {
+            v.push([kt(k, *t), 0, 0]);
+        }
+    }
+    v
+}
+
+/// (what the records of the A RRset of a.z do, what its TTL does) from `o` to `n`
+fn edit_shape(o: Kinds, n: Kinds) -> (&'static str, &'static str) {
+    let (ro, rn) = (rrsets_of(&zone_recs(o)), rrsets_of(&zone_recs(n)));
+    let (Some(f), Some(t)) = (ro.get(&(1, 1)), rn.get(&(1, 1))) else { return ("rrset-appears-or-disappears", "-") };
+    let keeps = f.1.intersection(&t.1).next().is_some();
+    let gains = t.1.difference(&f.1).next().is_some();
+    let loses = f.1.difference(&t.1).next().is_some();
+    let recs = match (keeps, gains, loses) {
+        (true, false, false) => "records-unchanged",
+        (true, true, false) => "keep+add",
+        (true, false, true) => "keep+remove",
+        (true, true, true) => "keep+add+remove",
+        (false, ..) => "replace-all",
+    };
+    let (tf, tt) = (TTLS[f.0 as usize], TTLS[t.0 as usize]);
+    (recs, if tt > tf { "ttl-raised" } else if tt < tf { "ttl-lowered" } else { "ttl-same" })
 }
 
 /// the contents the SOA axis is crossed with
@@ -2347,7 +2391,7 @@ fn op_alphabet() -> Vec<Op> {
 
 fn op_json(o: &Op) -> Value {
     match o {
-        Op::Upd(n, k) => json!({"op": "update_rrset", "owner": OWNERS[*n as usize], "kind": (["", "A{1}", "A{1,2}", "TXT", "A{3}"][(*k & 7) as usize]), "ttl": TTLS[(*k >> 3) as usize], "n": n, "k": k}),
+        Op::Upd(n, k) => json!({"op": "update_rrset", "owner": OWNERS[*n as usize], "kind": (["", "A{1}", "A{1,2}", "TXT", "A{3}", "A{1,3}"][(*k & 7) as usize]), "ttl": TTLS[(*k >> 3) as usize], "n": n, "k": k}),
         Op::Rem(n, t) => json!({"op": "remove_rrset", "owner": OWNERS[*n as usize], "rtype": (["A", "TXT"][*t as usize]), "n": n, "t": t}),
         Op::RemAll => json!({"op": "remove_all"}),
     }
@@ -2593,12 +2637,12 @@ fn run_diff_space(sh: &Shared, zones: &[Kinds], alpha: &[Op], max_len: usize, pl
     }));
 }
 
-/// The edits of part L: a.z gets every RRset kind under every TTL of the menu
-/// or loses an RRset, b.a.z gets a TXT RRset with one of two TTLs or loses it,
+/// The edits of part L: a.z gets every RRset kind (A{1}, A{1,2}, TXT, A{3},
+/// A{1,3}) under every TTL of the menu or loses an RRset, b.a.z gets a TXT RRset with one of two TTLs or loses it,
 /// or everything is removed.
 fn ttl_op_alphabet() -> Vec<Op> {
     let mut v = vec![];
-    for k in 1..=4u8 {
+    for k in 1..=5u8 {
         for t in 0..TTLS.len() as u8 {
             v.push(Op::Upd(1, kt(k, t)));
         }
@@ -3150,6 +3194,13 @@ fn run_serial_part(sh: &Shared, b: &Bounds) {
 //    part S; also under SOA plans.
 //  * L/W, L/H: stream client and histories on the small universe and under
 //    SOA plans.
+//  * edit shapes: the A RRset of a.z in the shapes {A{1}, A{1,2}, A{3}, A{1,3}}
+//    x TTL {3600, 300, 2^31-1 [, 0]}: every ordered pair (record edit keep+add /
+//    keep+remove / keep+add+remove / replace all / none x TTL same / raised /
+//    lowered) not already in the TTL universe, through L/R (all stream forms;
+//    thorough: faults, 2-step through every zone), L/S (2-version chains
+//    [3-version chains], all request kinds), L/W; A{1,3} is an edit operation
+//    of L/D and the zones holding A{3} / A{1,3} are old contents there.
 
 fn is_base(k: Kinds) -> bool {
     k.iter().all(|v| v >> 3 == 0)
@@ -3216,6 +3267,28 @@ fn run_ttl_part(sh: &Shared, b: &Bounds) {
         }
     }
     spairs.par_iter().for_each(|(o, n)| with_universe(3, || run_pair(sh, *o, *n, &Bounds { faults: wide || fault_pairs.contains(&(*o, *n)), ..sb })));
+    // ---- L/R on the edit-shape universe: every ordered pair in which a zone holds A{3} or A{1,3}
+    // (the pairs among A{1} / A{1,2} are part of the TTL universe above); thorough: faults on the
+    // 1-step streams, and 2-step streams through every zone of the universe
+    let shape_uid: u8 = if wide { 6 } else { 5 };
+    let shapes = ttl_shape_universe(wide);
+    let mut shape_pairs = vec![];
+    for o in &shapes {
+        for n in &shapes {
+            if [*o, *n].iter().any(|k| k[0] & 7 >= 4) {
+                shape_pairs.push((*o, *n));
+                let (recs, ttl) = edit_shape(*o, *n);
+                lcount(&format!("L:shape:{recs}/{ttl}"));
+            }
+        }
+    }
+    lcount(&format!("L:shape-universe={}:pairs={}", shapes.len(), shape_pairs.len()));
+    let shb = Bounds { mid_first: 0, mid_second: 0, faults: wide, ..sb };
+    shape_pairs.par_iter().for_each(|(o, n)| with_universe(shape_uid, || run_pair(sh, *o, *n, &shb)));
+    if wide {
+        let shb2 = Bounds { mid_first: 1, mid_second: 1, faults: false, ..sb };
+        shape_pairs.par_iter().for_each(|(o, n)| with_universe(shape_uid, || run_pair(sh, *o, *n, &shb2)));
+    }
     // ---- L/SOA
     let content_pairs = [(e, e), (a1, a1), (a1, a2), (a2, a1), (e, a1)];
     let fault_plans = [[0u8, 1, 0], [1, 0, 1], [0, 4, 0], [5, 0, 5]];
@@ -3235,6 +3308,9 @@ fn run_ttl_part(sh: &Shared, b: &Bounds) {
     if wide {
         run_diff_space(sh, &small, &ttl_op_alphabet(), 3, [0; 3]);
     }
+    // (zones that hold A{3} or A{1,3} before the edits)
+    let shape_only: Vec<Kinds> = shapes.iter().filter(|k| k[0] & 7 >= 4).cloned().collect();
+    run_diff_space(sh, &shape_only, &ttl_op_alphabet(), if wide { 2 } else { 1 }, [0; 3]);
     for v1 in &all_variants {
         for v2 in &all_variants {
             if (*v1, *v2) != (0, 0) {
@@ -3258,6 +3334,20 @@ fn run_ttl_part(sh: &Shared, b: &Bounds) {
             for n in &small {
                 if o != m && m != n && !(is_base(*o) && is_base(*m) && is_base(*n)) {
                     chains.push(([0; 3], vec![*o, *m, *n]));
+                }
+            }
+        }
+    }
+    // the sender edited along every pair of the edit-shape universe (thorough: and on through every third zone
+    // of the 3-TTL shape universe)
+    for (o, n) in &shape_pairs {
+        if o != n {
+            chains.push(([0; 3], vec![*o, *n]));
+            if wide {
+                for m in ttl_shape_universe(false) {
+                    if m != *n {
+                        chains.push(([0; 3], vec![*o, *n, m]));
+                    }
                 }
             }
         }
@@ -3292,6 +3382,7 @@ fn run_ttl_part(sh: &Shared, b: &Bounds) {
         wwork.push((plan, a1, a2));
     }
     wwork.par_iter().for_each(|(plan, o, n)| with_soa_plan(*plan, || with_universe(3, || run_wire_pair(sh, *o, *n, &wb))));
+    shape_pairs.par_iter().for_each(|(o, n)| with_universe(shape_uid, || run_wire_pair(sh, *o, *n, &wb)));
     // ---- L/H
     let mids = if wide { 1 } else { 0 };
     let hb = Bounds { hist_aborts: if wide { 2 } else { 1 }, hist_all_mids: false, mid_first: mids, mid_second: mids, ..*b };
@@ -4115,7 +4206,7 @@ fn main() {
                 "history": format!("first update: every stream of pairs 1..={} RRsets apart{}, one RR per message, cut after every RR, {} abort kinds; second update: 3 forms to every zone <=1 RRset from the version reached", b.hist_dist, if b.hist_all_mids { " (all 2-step mids)" } else { " (2-step mids different from both ends)" }, b.hist_aborts),
                 "serial_schemes": format!("{:?} as (start, step); part S complete under all, parts R (pairs <=1 apart, <=1 cut + one RR per message) and D (<=1 edit) under schemes 1..", SCHEMES),
                 "wire_stream_client": format!("pairs <={} RRsets apart, serial schemes 0 and 1, honest splits: {}, all faults on the single-message and one-RR-per-message packagings (scheme 0)", b.wire_dist, if b.wire_all_splits_upto > 0 { format!("all up to {} RRs, beyond <=1 cut + one RR per message", b.wire_all_splits_upto) } else { "<=1 cut + one RR per message".to_string() }),
-                "ttl_axis": format!("part L: RRset TTL menu {:?}, SOA menu (TTL index, [refresh, retry, expire, minimum]) {:?}; TTL universe of {} zones (a.z: none | A,Ax2,TXT x TTL; b.a.z: none | TXT x {} TTLs), all ordered pairs through axfr / axfr-style ixfr / ixfr RR-granular, RRset-granular, added-records-carry-new-ttl, all splits up to {} RRs; 2-step streams and faults on the 7-zone sub-universe (faults: {}); SOA plans {} x 5 content pairs; diff edits: {} ops, sequences <= {}{}; sender: TTL pairs <= {} RRset apart + 3-chains of the sub-universe + SOA plans x 4 chains, 12 request kinds; stream client and histories on the sub-universe and under SOA plans", TTLS, SOAVS, ttl_universe(b.ttl_wide).len(), if b.ttl_wide { 2 } else { 1 }, if b.ttl_wide { 8 } else { 6 }, if b.ttl_wide { "all pairs" } else { "4 pairs" }, if b.ttl_wide { "v1 x v2 x v3 (215)" } else { "v1 x v2, v3 = v1 (35)" }, ttl_op_alphabet().len(), b.diff_len.min(2), if b.ttl_wide { " (3 on the sub-universe)" } else { "" }, b.sender_dist),
+                "ttl_axis": format!("part L: RRset TTL menu {:?}, SOA menu (TTL index, [refresh, retry, expire, minimum]) {:?}; TTL universe of {} zones (a.z: none | A,Ax2,TXT x TTL; b.a.z: none | TXT x {} TTLs), all ordered pairs through axfr / axfr-style ixfr / ixfr RR-granular, RRset-granular, added-records-carry-new-ttl, all splits up to {} RRs; 2-step streams and faults on the 7-zone sub-universe (faults: {}); SOA plans {} x 5 content pairs; diff edits: {} ops, sequences <= {}{}; sender: TTL pairs <= {} RRset apart + 3-chains of the sub-universe + SOA plans x 4 chains, 12 request kinds; stream client and histories on the sub-universe and under SOA plans; edit-shape universe of {} zones (a.z: A{{1}} | A{{1,2}} | A{{3}} | A{{1,3}} x {} TTLs): the ordered pairs with A{{3}} or A{{1,3}} on a side (record edit keep+add, keep+remove, keep+add+remove, replace all, none x TTL same, raised, lowered; counted per shape in the histogram under L:shape:) through the receiver (all stream forms), the sender (2-version chains{}), the stream client, and as old contents / operations of the diff edits", TTLS, SOAVS, ttl_universe(b.ttl_wide).len(), if b.ttl_wide { 2 } else { 1 }, if b.ttl_wide { 8 } else { 6 }, if b.ttl_wide { "all pairs" } else { "4 pairs" }, if b.ttl_wide { "v1 x v2 x v3 (215)" } else { "v1 x v2, v3 = v1 (35)" }, ttl_op_alphabet().len(), b.diff_len.min(2), if b.ttl_wide { " (3 on the sub-universe)" } else { "" }, b.sender_dist, ttl_shape_universe(b.ttl_wide).len(), if b.ttl_wide { 4 } else { 3 }, if b.ttl_wide { " and 3-version chains; faults and 2-step streams through every zone of it" } else { "" }),
                 "tsig_sender": format!("SOA + {} TXT records of {} octets, RNAME extension 0 and 2..={} octets, 4 request kinds", FILLERS, FILL_TXT, b.tsig_extra_max),
             },
             "histogram": total.counters,
